@@ -972,6 +972,25 @@ pub fn run_drop(opts: &Opts, rep: &mut Report, small: bool) {
             scripts[0].splice(0..0, s);
             rep.count("c11.gap-shapes");
         }
+        // a long gap inside one large bucket: thousands of honest items first, then a batch that over-reports by thousands without
+        // leaving the bucket, then ordinary pushes behind the gap
+        if !small && !cfg!(miri) && rng.chance(1, 10) {
+            let honest = *rng.pick(&[8200usize, 8200, 17_000, 33_000]);
+            let ids: Vec<u32> = (0..honest).map(|k| next_id + k as u32).collect();
+            next_id += honest as u32;
+            let mut s = vec![Op::Extend { reported: ids.len(), ids, panic_at: None }];
+            let n = rng.range(1, 3);
+            let ids: Vec<u32> = (0..n).map(|k| next_id + k as u32).collect();
+            next_id += n as u32;
+            let gap = *rng.pick(&[4097usize, 4200, 5000, 7000]) * (honest / 8200).min(2);
+            s.push(Op::Extend { reported: ids.len() + gap, ids, panic_at: None });
+            for _ in 0..rng.range(1, 10) {
+                s.push(Op::Push { id: next_id, mode: 0, arg: 0 });
+                next_id += 1;
+            }
+            scripts[0].splice(0..0, s);
+            rep.count("c11.long-gaps-inside-a-large-bucket");
+        }
         let shr = &sh;
         std::thread::scope(|scope| {
             for (t, script) in scripts.iter().enumerate() {
